@@ -92,8 +92,8 @@ class WorkflowEnd(Unit):
                  "orquesta.conducting.WorkflowConductor.get_workflow_terminal_context",
                  "orquesta.conducting.WorkflowState.get_terminal_tasks"]
     obligations = {
-        "C06.term_ctx.fold": {"props": ["C06"], "text":
-            "the terminal context is the fold over the term-flagged records in sequence order: the first one's context in full, the others' deltas without the root; asking for it on a workflow that is not completed is an error"},
+        "C06.term_ctx.fold": {"props": ["C06", "C10"], "text":
+            "the terminal context is the fold over the term-flagged records in sequence order: the first one's context in full, the others' deltas without the root; with no term-flagged record it is (a copy of) the initial context - workflow input and vars - when that exists; asking for it on a workflow that is not completed is an error"},
         "C10.rwo.keeps_canceled": {"props": ["C10", "C11", "C04"], "text":
             "output rendering happens only for a completed workflow without output; rendered values are stored; rendering errors are logged and fail the workflow except when it is canceled (expired / abandoned), whose status is kept"},
     }
@@ -141,7 +141,10 @@ class WorkflowEnd(Unit):
             e.overrides[conducting.WorkflowConductor.request_workflow_status] = rws
             rendered = {"o": Leaf("out")}
             spec = AbstractObj("spec", render_output=Stub("render_output", lambda eng, c_: (rendered, [Exception("bad")] if out_err else [])))
-            c, ws = cbase.new_conductor(status_c, sequence=seq, spec=spec, contexts=[{}, {}, {}, {}])
+            # the initial context may not exist (input / vars rendering failed before anything ran)
+            established = n_term > 0 or e.branch(S.mk_bool("initial_context_established").z)
+            root = {"in": Leaf("input"), "v": Leaf("var")}
+            c, ws = cbase.new_conductor(status_c, sequence=seq, spec=spec, contexts=[root, {}, {}, {}] if established else [])
             e.overrides[conducting.WorkflowState.serialize] = lambda eng, s_: {"state": True}
             info = {"status": status_c, "terminal_records": n_term, "output_error": out_err}
             # terminal context
@@ -155,8 +158,12 @@ class WorkflowEnd(Unit):
             else:
                 want_calls = ([term_ctxs[0]] + [term_ctxs[k][1:] for k in range(1, n_term)]) if n_term else []
                 ok = raised is None and calls == want_calls
-                if ok and n_term == 0:
-                    ok = tctx == {}
+                if n_term == 0:
+                    # nothing is terminal (the workflow was canceled or failed while nothing ran, e.g.
+                    # canceled while paused): it ends with the context it started with - the workflow
+                    # input and vars stay available to the output expressions - as a copy
+                    ok = raised is None and not calls and (
+                        (tctx == root and tctx is not root) if established else tctx == {})
                 if ok and n_term >= 1:
                     ok = len(merged) == n_term - 1 and all(m[2] is True for m in merged)
                 ctx.oblige("C06.term_ctx.fold", ok, None, dict(info, calls=calls))
